@@ -420,6 +420,8 @@ class Frame:
         if tag in ("take", "skip") and isinstance(it[1], tuple) and it[1] and it[1][0] == "map":
             m = it[1]
             return self.closure_ret(m[2], [self.elem((tag, m[1], it[2]))], site_hint=m[3] if len(m) > 3 else None)
+        if tag in ("take", "skip") and isinstance(it[1], tuple) and it[1] and it[1][0] == "enumerate":
+            return ("tuple", (("index", it), self.elem((tag, it[1][1], it[2]))))
         return ("elem", it)
 
     def operand_term(self, op):
@@ -614,7 +616,7 @@ class Frame:
     def ctrl_of_block(self, bb):
         """tuple of guard descriptors (outermost first) the block is control dependent on"""
         if self._ctrl is None:
-            self._ctrl = cfg.control_deps_closed(self.body)
+            self._ctrl = cfg.control_deps_closed(self.body, intra_iteration=True)
         deps = sorted(self._ctrl.get(bb, ()), key=lambda ab: (self._rpo_index(ab[0]), ab[1]))
         out = []
         for (a, b) in deps:
